@@ -36,6 +36,10 @@ func Seed() int64                           { panic("sym") }
 func Bound(name string, v int)              { panic("sym") } // "unwind", "slice-len", "max-paths"
 func Option(name string)                    { panic("sym") }
 func Stub(fullFuncName string)               { panic("sym") } // replace a callee by "any result of its type" (listed in evidence)
+func SpyCount(fullFuncName string) int                { panic("sym") } // calls of a stubbed function on this path
+func SpyArgZ(fullFuncName string, call, arg int) Z    { panic("sym") } // numeric argument (0 = receiver)
+func SpyArgBool(fullFuncName string, call, arg int) bool { panic("sym") }
+func SpyErrNil(fullFuncName string, call int) bool    { panic("sym") } // did the stub return a nil error
 func Note(assumption string)                { panic("sym") } // echoed under assumptions in the evidence file
 
 // Branch-free connectives for specifications (Go's && || and if fork the symbolic execution; these do not).
